@@ -579,6 +579,14 @@ func (a *Act) doReturn(st *State, vals []Val, pos token.Pos, ri *ssa.Return) {
 		if len(c.Props) > 0 {
 			props = c.Props
 		}
+		if hasProp(c.Props, "trusted") {
+			// clause assumed by callers but not proved here (e.g. it depends on a dynamically dispatched callee)
+			vc.noteAssumed("trusted postcondition of " + a.prefix + ": " + c.Text)
+			continue
+		}
+		if len(c.Props) > 0 {
+			props = a.props
+		}
 		v, err := a.clauseEnv(env, c).evalBool(c.Expr)
 		if err != nil {
 			vc.oblige(name, "post", props, c.Line, st.guard, "false", "contract error: "+err.Error()+" in: "+c.Text)
